@@ -71,6 +71,7 @@ pub fn ideal(d: u32, s: u32, c: u8, k: Option<u8>, mode: u8) -> [f32; 4] {
 }
 
 #[derive(Debug)]
+#[allow(dead_code)] // the payloads are only printed (Debug) in violation reports
 pub enum Verdict {
     Ok,
     /// the pixel had to keep its value bit for bit
